@@ -152,6 +152,13 @@ func checkC14(c *Ctx, r *Report) {
 	}
 	frozenConstants(c, r, "frozen-constants", spec)
 	varintDep(c, r, "varint-dep", spec)
+	ruleSectionAgreement(c, r, "section-agreement", spec)
+	ruleCodecAgreement(c, r, "codec-agreement", spec)
+	ruleShape(c, r, "operand-shapes", true, true)
+	checkU16(c, r, "endianness")
+	ruleHeaderGuards(c, r, "version-accept")
+	ruleUvarintLen(c, r, "varint-length")
+	ruleNibbles(c, r, "bind-byte")
 	r.note("that a stored corpus of .bcb files still executes to its recorded results (needs execution)")
 	r.note("the arithmetic of the signed-integer mapping i64ToU64/u64ToI64")
 }
